@@ -66,9 +66,11 @@ func recOne(fn, h string) {
 }
 
 type emitter struct {
-	fn   string
-	seen map[string]bool
-	n    int
+	fn    string
+	seen  map[string]bool
+	n     int
+	order []string // inputs in generation order (for the second pass of `rec-twice`)
+	first map[string]string
 }
 
 func (e *emitter) emit(s string) {
@@ -77,13 +79,40 @@ func (e *emitter) emit(s string) {
 	}
 	e.seen[s] = true
 	e.n++
-	fmt.Fprintf(out, "%s\t%s\t%s\n", e.fn, hx(s), implRec(e.fn, s))
+	r := implRec(e.fn, s)
+	if e.first != nil {
+		e.order = append(e.order, s)
+		e.first[s] = r
+		return
+	}
+	fmt.Fprintf(out, "%s\t%s\t%s\n", e.fn, hx(s), r)
+}
+
+// recTwice: every generated input is evaluated once in generation order and then again in a shuffled order, in the same
+// process; lines are printed only for inputs whose two verdicts differ (a recognizer with hidden state).
+func recTwice(fn, tier string, seed int64) {
+	rng := rand.New(rand.NewSource(seed))
+	e := &emitter{fn: fn, seen: map[string]bool{}, first: map[string]string{}}
+	runGen(e, fn, rng, tier == "thorough")
+	idx := rng.Perm(len(e.order))
+	diff := 0
+	for _, i := range idx {
+		s := e.order[i]
+		if r := implRec(fn, s); r != e.first[s] {
+			diff++
+			fmt.Fprintf(out, "%s\t%s\t%s\t%s\n", fn, hx(s), e.first[s], r)
+		}
+	}
+	fmt.Fprintf(out, "summary\t%s\t%d\t%d\n", fn, len(e.order), diff)
 }
 
 func recMain(fn, tier string, seed int64) {
 	rng := rand.New(rand.NewSource(seed))
 	e := &emitter{fn: fn, seen: map[string]bool{}}
-	thorough := tier == "thorough"
+	runGen(e, fn, rng, tier == "thorough")
+}
+
+func runGen(e *emitter, fn string, rng *rand.Rand, thorough bool) {
 	switch fn {
 	case "uuid":
 		genUUID(e, rng, thorough)
@@ -163,6 +192,25 @@ func genUUID(e *emitter, rng *rand.Rand, thorough bool) {
 		strings.Repeat("\u212a", 12),
 	} {
 		e.emit(fixed)
+	}
+	lowHex := []string{"\u0130", "\u0139", "\u0141", "\u0146", "\u0161", "\u0166", "\u2030", "\u2041", "\U00010130", "\U00010166", "\u00e9", "\u0430"}
+	for _, b := range []string{"550e8400-e29b-41d4-a716-446655440000", "f47ac10b-58cc-4372-a567-0e02b2c3d479"} {
+		fields := []int{0, 9, 14, 19, 24, 30} // start offsets inside the five hex fields (field 5 twice)
+		for _, r := range lowHex {
+			for _, off := range fields {
+				if off == 14 || off == 19 {
+					off++ // keep the version / variant byte
+				}
+				if off+len(r) > len(b) || strings.Contains(b[off:off+len(r)], "-") {
+					continue
+				}
+				e.emit(b[:off] + r + b[off+len(r):])
+				// two runes
+				if off+2*len(r) <= len(b) && !strings.Contains(b[off:off+2*len(r)], "-") {
+					e.emit(b[:off] + r + r + b[off+2*len(r):])
+				}
+			}
+		}
 	}
 	for _, b := range bases {
 		e.emit(b)
@@ -381,7 +429,7 @@ func genEmail(e *emitter, rng *rand.Rand, thorough bool) {
 	rec("", maxn)
 	// members and every single-byte mutation / insertion / deletion
 	members := []string{"a@b.c", "user.name+tag@sub.example.com", "x_y-z@a-b.co", "A1!#$%&'*+-/=?^_`{|}~z@EXAMPLE.ORG", "a.b.c@1.2.3", "u@xn--80ak6aa92e.com"}
-	mut := []byte{'a', 'Z', '0', '.', '-', '_', '@', '+', ' ', '"', '(', ',', ':', ';', '<', '>', '[', '\\', ']', 0, 0x7f, 0x80, 0xc5, 0xa1, 0xff, '!', '~', '{', '`'}
+	mut := []byte{'\r', 0x0e, 0x10, 0x11, 0x19, 0x0d, 0x1f, 'a', 'Z', '0', '.', '-', '_', '@', '+', ' ', '"', '(', ',', ':', ';', '<', '>', '[', '\\', ']', 0, 0x7f, 0x80, 0xc5, 0xa1, 0xff, '!', '~', '{', '`'}
 	for _, m := range members {
 		e.emit(m)
 		for pos := 0; pos <= len(m); pos++ {
